@@ -107,8 +107,24 @@ func c16ConfigCase(c *Ctx) *Result {
 			sig, detail = s, d
 		}
 	}
+	var prevSeed *int32
+	prevUnlock := false
 	for i := 0; i < 120 && sig == ""; i++ {
 		p := genAnyPattern(r)
+		if i%3 == 1 && prevSeed != nil {
+			// another pattern with the seed of the previous one (a client and a server sharing a seed,
+			// a reload that flips unlockAll, two profiles): its implicit values may not depend on
+			// what was built before it in this process
+			p.Seed = proto.Int32(*prevSeed)
+			if r.Intn(2) == 0 {
+				p.UnlockAll = proto.Bool(!prevUnlock)
+			}
+			res.Obs["same_seed_patterns"]++
+		}
+		if p.Seed != nil {
+			v := p.GetSeed()
+			prevSeed, prevUnlock = &v, p.GetUnlockAll()
+		}
 		orig := proto.Clone(p).(*appctlpb.TrafficPattern)
 		cfg, err := trafficpattern.NewConfig(p)
 		res.Obs["patterns"]++
